@@ -108,7 +108,7 @@ PLANS = {
                  min_outcomes=3, deadline=(150, 1500)),
             _job('servers', 'servers',
                  witnesses=['user_setting_preserved', 'fixedpoint_checked', 'dup_checked', 'csv_roundtrip', 'reinit_checked', 'server_v6_linklocal'],
-                 min_outcomes=1, deadline=(100, 400), max_restarts=400),
+                 min_outcomes=1, deadline=(200, 400)),
             _job('userwins', 'userwins',
                  witnesses=['user_setting_preserved', 'system_value_applied', 'fixedpoint_checked', 'dup_checked', 'csv_roundtrip', 'reinit_checked'],
                  min_outcomes=3, deadline=(100, 400)),
